@@ -97,7 +97,15 @@ class Mailbox:
 
     def broadcast_message(self, sm):
         for (send_f, stop_f) in self._listeners.values():
-            send_f(sm)
+            try:
+                send_f(sm)
+            except Exception as e:
+                # a listener whose connection is going away (autobahn refuses
+                # to send while the websocket closing handshake is still in
+                # progress) must not keep the other listeners from getting
+                # the message, nor fail the connection that added it
+                log.msg("error delivering message to a listener")
+                log.err(e)
 
     def _add_message(self, sm):
         self._db.execute("INSERT INTO `messages`"
